@@ -208,7 +208,8 @@ def assert_repo():
     """the implementation under test must be the working tree of /repo"""
     import tweakwcs
     p = os.path.realpath(tweakwcs.__file__)
-    if not p.startswith('/repo/'):
+    allow = os.environ.get('VERIF_ALLOW_REPO')  # mutation experiments on a scratch copy only
+    if not (p.startswith('/repo/') or (allow and p.startswith(os.path.realpath(allow) + '/'))):
         raise Infra('tweakwcs resolves to %s, not to /repo' % p)
     return p
 
